@@ -959,4 +959,32 @@ theorem step_todo (cfg : Cfg) (total : Nat) {s s' : Run α × List (Part α)} (h
   | left l l' r log log' _ ih => simp only [Run.todo] at ih ⊢; omega
   | right l r r' log log' _ ih => simp only [Run.todo] at ih ⊢; omega
 
+/-- payloads of all chunks of a tree in stream order -/
+def Tree.chunks : Tree α → List (List α)
+  | .leaf cs => cs.map (·.1)
+  | .node l r => l.chunks ++ r.chunks
+
+theorem Tree.bytes_eq_flatten (t : Tree α) : t.bytes = t.chunks.flatten := by
+  induction t with
+  | leaf cs => simp [Tree.bytes, Tree.chunks]
+  | node l r ihl ihr => simp [Tree.bytes, Tree.chunks, ihl, ihr]
+
+theorem Tree.obs_sizes (t : Tree α) : t.obs.map (·.1) = t.chunks.map List.length := by
+  induction t with
+  | leaf cs => simp [Tree.obs, Tree.chunks, Function.comp_def]
+  | node l r ihl ihr => simp [Tree.obs, Tree.chunks, ihl, ihr]
+
+theorem slice_flatten (H : List α) (cs : List (List α)) (i : Nat) (hi : i < cs.length) :
+    ((H ++ cs.flatten).drop (H.length + (cs.take i).flatten.length)).take (cs[i].length) = cs[i] := by
+  have hfl : cs.flatten = (cs.take i).flatten ++ (cs[i] ++ (cs.drop (i + 1)).flatten) := by
+    have h1 : cs.flatten = (cs.take i).flatten ++ (cs.drop i).flatten := by
+      rw [← List.flatten_append, List.take_append_drop]
+    have h2 : cs.drop i = cs[i] :: cs.drop (i + 1) := List.drop_eq_getElem_cons hi
+    rw [h2, List.flatten_cons] at h1
+    exact h1
+  have : H ++ cs.flatten = (H ++ (cs.take i).flatten) ++ (cs[i] ++ (cs.drop (i + 1)).flatten) := by
+    rw [hfl, List.append_assoc]
+  rw [this]
+  have hl : (H ++ (cs.take i).flatten).length = H.length + (cs.take i).flatten.length := by simp
+  rw [← hl, List.drop_left, List.take_left]
 end OdcGeo.C06
